@@ -37,9 +37,25 @@ _TIER = "quick"
 _SEED = 0
 
 
+class FamilyTimeout(Exception):
+    pass
+
+
+FAMILY_BUDGET_S = {"quick": 420, "thorough": 1200}
+
+
 def _worker(idx):
+    import signal
     spec = _SPECS[idx]
     t0 = time.time()
+
+    def on_alarm(signum, frame):
+        raise FamilyTimeout()
+    try:
+        signal.signal(signal.SIGALRM, on_alarm)
+        signal.alarm(FAMILY_BUDGET_S.get(_TIER, 420))
+    except (ValueError, AttributeError):
+        pass
     try:
         H.NESTED_ARITY["value"] = 3 if _TIER == "thorough" else 2
         fam = spec.run(_PROG, _TIER)
@@ -71,10 +87,18 @@ def _worker(idx):
             if o.verdict is not None and o.verdict.status == "unknown":
                 r["reason"] = o.verdict.reason
             recs.append(r)
+        try:
+            signal.alarm(0)
+        except (ValueError, AttributeError):
+            pass
         return {"family": spec.name, "props": sorted(spec.props), "functions": spec.functions, "optional": spec.optional,
                 "error": fam.error, "paths": fam.paths, "stats": fam.stats, "obls": recs,
                 "explore_s": round(fam.seconds, 3), "wall_s": round(time.time() - t0, 3),
                 "bounded": fam.bounded, "extra": getattr(fam, "extra", None)}
+    except FamilyTimeout:
+        return {"family": spec.name, "props": sorted(spec.props), "functions": spec.functions, "optional": spec.optional,
+                "error": f"unsupported: the family exceeded its time budget of {FAMILY_BUDGET_S.get(_TIER, 420)} s (path explosion or a solver query that does not return)",
+                "paths": 0, "stats": {}, "obls": [], "explore_s": 0, "wall_s": round(time.time() - t0, 3), "bounded": None}
     except Exception:
         tb = traceback.format_exc()
         return {"family": spec.name, "props": sorted(spec.props), "functions": spec.functions, "optional": spec.optional,
@@ -190,10 +214,63 @@ def run_specs(specs, tier="quick", seed=0, jobs=None, prog=None):
     jobs = jobs or min(16, os.cpu_count() or 4)
     if jobs == 1 or len(specs) <= 1:
         return [_worker(i) for i in range(len(specs))], _PROG
+    return _run_killable(len(specs), jobs, FAMILY_BUDGET_S.get(tier, 420) + 30), _PROG
+
+
+def _child_main(idx, conn):
+    try:
+        conn.send(_worker(idx))
+    except Exception:
+        conn.send({"family": _SPECS[idx].name, "props": sorted(_SPECS[idx].props), "functions": _SPECS[idx].functions,
+                   "optional": _SPECS[idx].optional, "error": "engine: " + traceback.format_exc(), "paths": 0, "stats": {},
+                   "obls": [], "explore_s": 0, "wall_s": 0, "bounded": None})
+    finally:
+        conn.close()
+
+
+def _run_killable(n, jobs, hard_limit_s):
+    """Every family runs in its own forked process; one that does not come back within the hard
+    limit is killed and reported as undecided (a stuck solver call cannot hang the check)."""
     ctx = mp.get_context("fork")
-    with ctx.Pool(jobs) as pool:
-        results = pool.map(_worker, range(len(specs)), chunksize=1)
-    return results, _PROG
+    results = [None] * n
+    pending = list(range(n))
+    running = {}          # idx -> (process, parent_conn, start)
+    while pending or running:
+        while pending and len(running) < jobs:
+            idx = pending.pop(0)
+            parent, child = ctx.Pipe(duplex=False)
+            p = ctx.Process(target=_child_main, args=(idx, child), daemon=True)
+            p.start()
+            child.close()
+            running[idx] = (p, parent, time.time())
+        done = []
+        for idx, (p, conn, t0) in running.items():
+            if conn.poll(0):
+                try:
+                    results[idx] = conn.recv()
+                except EOFError:
+                    results[idx] = None
+                done.append(idx)
+            elif not p.is_alive():
+                done.append(idx)
+            elif time.time() - t0 > hard_limit_s:
+                p.kill()
+                results[idx] = {"family": _SPECS[idx].name, "props": sorted(_SPECS[idx].props), "functions": _SPECS[idx].functions,
+                                "optional": _SPECS[idx].optional,
+                                "error": f"unsupported: the family did not finish within {hard_limit_s} s and was stopped",
+                                "paths": 0, "stats": {}, "obls": [], "explore_s": 0, "wall_s": round(time.time() - t0, 1), "bounded": None}
+                done.append(idx)
+        for idx in done:
+            p, conn, _t = running.pop(idx)
+            p.join(timeout=5)
+            conn.close()
+            if results[idx] is None:
+                results[idx] = {"family": _SPECS[idx].name, "props": sorted(_SPECS[idx].props), "functions": _SPECS[idx].functions,
+                                "optional": _SPECS[idx].optional, "error": "engine: the family process died without a result",
+                                "paths": 0, "stats": {}, "obls": [], "explore_s": 0, "wall_s": 0, "bounded": None}
+        if not done:
+            time.sleep(0.02)
+    return results
 
 
 # ---------------------------------------------------------------------------- known findings
